@@ -240,7 +240,8 @@ Definition run (i : ops) : outs :=
     While valid it requires: no panic; every poll_transmit yields the whole range
     ([copy loop] not stuck), [0 <= start <= end <= length written], the data equals
     [slice written start (end - start)], the range was not in flight nor acked, its wire size fits
-    [max_len]; [is_fully_acked, unacked, offset] agree with the bookkeeping. *)
+    [max_len]; [is_fully_acked, unacked, offset, has_unsent_data] agree with the bookkeeping
+    (in particular every written byte is in flight, acknowledged, or still pending: none is forgotten). *)
 Definition slice (l : list Z) (off len : Z) : list Z :=
   firstn (Z.to_nat len) (skipn (Z.to_nat off) l).
 
@@ -277,10 +278,13 @@ Fixpoint oracle_from (written : list Z) (inflight acked : log) (i : ops) (o : ou
           | [] => oracle_from written [] acked i' o'
           | _ => true
           end
-      | [6], [fully; un; off; _] =>
+      | [6], [fully; un; off; pending] =>
           let nacked := total (canon acked) in
           (off =? zlen written) && (un =? zlen written - nacked) &&
           (fully =? b2z (nacked =? zlen written)) &&
+          (* no byte is forgotten: data is pending exactly when some written byte is neither
+             in flight nor acknowledged *)
+          (pending =? b2z (nacked + total (canon inflight) <? zlen written)) &&
           oracle_from written inflight acked i' o'
       | [3; _; _], _ => true            (* raw get with arbitrary arguments may panic: stop *)
       | _, _ => oracle_from written inflight acked i' o'
